@@ -463,7 +463,8 @@ class Lab(object):
         elif name == 'redis':
             from slimta.redisstorage import RedisStorage
             mr = get_miniredis()
-            prefix = 'q%d:' % self.rnd.randrange(1 << 40)
+            n = self.rnd.randrange(1 << 40)
+            prefix = ('q%d:' if n % 2 else 'q%d-') % n        # "any string": with and without a trailing colon
             inner = RedisStorage('127.0.0.1', mr.port, prefix=prefix)
             native_wait = True
 
@@ -519,22 +520,36 @@ class Lab(object):
 
         self.bounce_q = None
         kw = {}
+        lab = self
         if cfg.get('sep_bounce_queue'):
+            # a real, separate bounce Queue, constructed (and not yet started) before the delivery
+            # queue exactly as an application would; observed by wrapping its enqueue attribute
             self.bstore = StoreProbe(self, DictStorage(), False, False)
-            self.bounce_q = Q.Queue(self.bstore, self.relay, backoff=backoff, bounce_factory=factory)
-            kw['bounce_queue'] = BounceQueueProbe(self, self.bounce_q)
+            # 'store-only': a bounce queue without relay (documented: nothing is attempted, another
+            # process delivers from its storage); its greenlet finishes at once
+            b_relay = None if cfg.get('sep_bounce_queue') == 'store-only' else self.relay
+            self.bounce_q = Q.Queue(self.bstore, b_relay, backoff=backoff, bounce_factory=factory)
+            real_b_enqueue = self.bounce_q.enqueue
+
+            def bounce_enqueue_probe(envelope):
+                lab.log_bounce_enqueue(envelope)
+                return real_b_enqueue(envelope)
+            self.bounce_q.enqueue = bounce_enqueue_probe
+            kw['bounce_queue'] = self.bounce_q
         self.queue = Q.Queue(self.store, self.relay, backoff=backoff, bounce_factory=factory,
                              store_pool=cfg.get('store_pool'), relay_pool=cfg.get('relay_pool'), **kw)
-        if not cfg.get('sep_bounce_queue'):
-            # observe the normal enqueue path for bounces without changing it
-            real_enqueue = self.queue.enqueue
-            lab = self
+        # observe the normal enqueue path of the delivery queue without changing it
+        real_enqueue = self.queue.enqueue
 
-            def enqueue_probe(envelope):
-                if isinstance(envelope, Bounce):
+        def enqueue_probe(envelope):
+            if isinstance(envelope, Bounce):
+                if cfg.get('sep_bounce_queue'):
+                    lab.log('bounce_misrouted', marker(envelope), 'enqueued on the delivery queue although a '
+                            'separate bounce queue is configured')
+                else:
                     lab.log_bounce_enqueue(envelope)
-                return real_enqueue(envelope)
-            self.queue.enqueue = enqueue_probe
+            return real_enqueue(envelope)
+        self.queue.enqueue = enqueue_probe
         return self.queue
 
     def log_bounce_enqueue(self, b):
@@ -1240,7 +1255,12 @@ def judge_c13(lab, H):
                 out.append(('original-not-embedded', orig, {'headers_only': bool(lab.cfg.get('headers_only'))}))
             if lab.cfg.get('headers_only') and info['flat'] in flat and info['flat'] != info['hdr']:
                 out.append(('body-embedded-in-headers-only', orig, {}))
+    for e in lab.events:
+        if e[1] == 'bounce_misrouted':
+            out.append(('bounce-not-handed-to-configured-bounce-queue', fac.get(e[2], (None,))[0], {'bounce': e[2]}))
     for bm in fac:
+        if bm in [e[2] for e in lab.events if e[1] == 'bounce_misrouted']:
+            continue
         if bm not in enq:
             out.append(('bounce-not-enqueued-via-bounce-queue', fac[bm][0], {'bounce': bm}))
     # loop guard: messages ever written <= accepted + bounces expected
